@@ -202,3 +202,32 @@ Definition ares_obs (o : hobj) (r : ares) : list N * list N :=
 (* build a container from a kind and a list of words pushed in order (what the harness does) *)
 Fixpoint push_all (d : adata) (ws : list N) : adata :=
   match ws with [] => d | w :: r => match apush d w with Some d' => push_all d' r | None => push_all d r end end.
+
+(* ================================================================== literals and for-each
+   (the code after the round-4 repairs: an element of another kind is a type error, the three
+   for-each opcodes are one generic step) *)
+Definition first_kind (w : N) : akind :=
+  if is_int w then KI else if is_float w then KF else if is_bool w then KB else KO.
+Fixpoint push_strict (d : adata) (ws : list N) : option adata :=
+  match ws with
+  | [] => Some d
+  | w :: r => match apush d w with Some d' => push_strict d' r | None => None end
+  end.
+(* ArrayLit 134 / VecLit 152 on the element registers: None = type error; the storage kind is the
+   kind of the first element (an empty literal is an int storage) *)
+Definition op_lit (ws : list N) : option adata :=
+  match ws with
+  | [] => Some (DInts [])
+  | w :: _ => push_strict (anew (first_kind w) 0) ws
+  end.
+
+(* StringForLoop 177 / VecForLoop 178 / ArrayForLoop 179: one step on (index word, iterable object);
+   strings are ASCII here (byte offset = character index) *)
+Inductive eres := EElem (w : N) | EChar (i : nat) | EEnd | EErr.
+Definition op_each (o : hobj) (iw : N) : eres :=
+  let i := match as_int iw with Some z => z | None => 0%Z end in
+  match o with
+  | HArray d | HVec d => if (0 <=? i)%Z then match dget d i with Some w => EElem w | None => EEnd end else EEnd
+  | HString n => if (0 <=? i)%Z && (i <? Z.of_nat n)%Z then EChar (Z.to_nat i) else EEnd
+  | HOther | HNone => EErr
+  end.
